@@ -218,7 +218,7 @@ def run(shard, ctx):
         ctx.extra["low_level_prelude_bytes"] = low_level_prelude()
     if kind == "files":
         rng = ctx.rng("files")
-        values = MM.midi_vocabulary()
+        values = MM.midi_vocabulary(zero_ticks=True)
         with Scratch() as path:
             for i in range(shard["n"]):
                 what = rng.choice(["note", "container", "bar", "track", "track", "composition", "composition"])
